@@ -3,8 +3,12 @@ package main
 import (
 	"fmt"
 	"go/ast"
+	"go/constant"
 	"go/token"
 	"go/types"
+	"regexp/syntax"
+	"sort"
+	"strings"
 
 	"golang.org/x/tools/go/cfg"
 )
@@ -278,4 +282,289 @@ func init() {
 	if false {
 		register("CXX", "", nil)
 	}
+}
+
+// C14-b: trimming delimiters off an input token with s[a:len(s)-b] panics when the token is shorter than a+b.
+func init() {
+	register("C14",
+		"C14-b (guarded delimiter stripping): every slice expression x[a : len(x)-b] on a string in package query (the token-trimming idiom, a+b ≥ 1) is justified by a guard that implies len(x) ≥ a+b — a conjunct len(x) ≥ k, or a HasPrefix/HasSuffix pair whose literals cannot overlap to a shorter string (HasPrefix(x, `\"`) && HasSuffix(x, `\"`) only implies len ≥ 1) — or by the participle lexer rule that produced the token: the struct-tag token name of the capturing field is looked up in the lexer rule tables and the minimum match length of its pattern is computed with regexp/syntax. Found the parseValue panic on `tag:\"`.",
+		ruleC14Trim)
+}
+
+func minOverlapLen(p, q string) int {
+	// shortest string having prefix p and suffix q
+	best := len(p) + len(q)
+	for k := 1; k <= len(p) && k <= len(q); k++ {
+		if p[len(p)-k:] == q[:k] {
+			if l := len(p) + len(q) - k; l < best {
+				best = l
+			}
+		}
+	}
+	if len(p) >= len(q) && strings.HasSuffix(p, q) && len(p) < best {
+		best = len(p)
+	}
+	if len(q) >= len(p) && strings.HasPrefix(q, p) && len(q) < best {
+		best = len(q)
+	}
+	return best
+}
+
+func ruleC14Trim(p *Prog, r *Res) {
+	const rule = "C14-b guarded-trim"
+	r.Rule(rule + ": x[a:len(x)-b] on strings is guarded by a length fact")
+	// lexer rule name -> minimal match length (from composite literals {Name: "...", Pattern: `...`})
+	ruleMin := map[string]int{}
+	for _, file := range p.By["query"].Syntax {
+		ast.Inspect(file, func(x ast.Node) bool {
+			cl, ok := x.(*ast.CompositeLit)
+			if !ok {
+				return true
+			}
+			var name, pat string
+			for _, el := range cl.Elts {
+				if kv, ok := el.(*ast.KeyValueExpr); ok {
+					if tv, ok := p.By["query"].TypesInfo.Types[kv.Value]; ok && tv.Value != nil && tv.Value.Kind() == constant.String {
+						switch types.ExprString(kv.Key) {
+						case "Name":
+							name = constant.StringVal(tv.Value)
+						case "Pattern":
+							pat = constant.StringVal(tv.Value)
+						}
+					}
+				}
+			}
+			if name != "" && pat != "" {
+				if re, err := syntax.Parse(pat, syntax.Perl); err == nil {
+					ml := regexMinLen(re.Simplify())
+					if old, ok := ruleMin[name]; !ok || ml < old {
+						ruleMin[name] = ml
+					}
+				}
+			}
+			return true
+		})
+	}
+	n := 0
+	for _, f := range p.FnList {
+		if f.Short != "query" {
+			continue
+		}
+		info := f.Pkg.TypesInfo
+		inspectParents(f.Body(), func(x ast.Node, parents []ast.Node) bool {
+			sl, ok := x.(*ast.SliceExpr)
+			if !ok || sl.High == nil {
+				return true
+			}
+			t := info.TypeOf(sl.X)
+			if t == nil {
+				return true
+			}
+			if b, ok := t.Underlying().(*types.Basic); !ok || b.Info()&types.IsString == 0 {
+				return true
+			}
+			// High == len(X) - b
+			be, ok := ast.Unparen(sl.High).(*ast.BinaryExpr)
+			if !ok || be.Op != token.SUB {
+				return true
+			}
+			lc, ok := ast.Unparen(be.X).(*ast.CallExpr)
+			if !ok || !isBuiltin(info, lc, "len") || types.ExprString(lc.Args[0]) != types.ExprString(sl.X) {
+				return true
+			}
+			bv, okb := info.Types[be.Y]
+			if !okb || bv.Value == nil {
+				return true
+			}
+			b64, _ := constant.Int64Val(bv.Value)
+			a64 := int64(0)
+			if sl.Low != nil {
+				av, oka := info.Types[sl.Low]
+				if !oka || av.Value == nil {
+					return true
+				}
+				a64, _ = constant.Int64Val(av.Value)
+			}
+			need := int(a64 + b64)
+			if need < 1 {
+				return true
+			}
+			n++
+			xs := types.ExprString(sl.X)
+			key := fmt.Sprintf("%s %s[%d:len-%d]", f.Key(), xs, a64, b64)
+			// facts from enclosing if conditions
+			known := 0
+			why := "no guard"
+			for _, pn := range parents {
+				ifs, ok := pn.(*ast.IfStmt)
+				if !ok || !within(sl, ifs.Body) {
+					continue
+				}
+				var conj []ast.Expr
+				var split func(e ast.Expr)
+				split = func(e ast.Expr) {
+					e = ast.Unparen(e)
+					if b2, ok := e.(*ast.BinaryExpr); ok && b2.Op == token.LAND {
+						split(b2.X)
+						split(b2.Y)
+						return
+					}
+					conj = append(conj, e)
+				}
+				split(ifs.Cond)
+				pre, suf := "", ""
+				hasPre, hasSuf := false, false
+				for _, c := range conj {
+					switch cc := c.(type) {
+					case *ast.BinaryExpr:
+						// len(X) >= k / > k / != 0
+						if l2, ok := ast.Unparen(cc.X).(*ast.CallExpr); ok && isBuiltin(info, l2, "len") && types.ExprString(l2.Args[0]) == xs {
+							if kv, ok := info.Types[cc.Y]; ok && kv.Value != nil {
+								k, _ := constant.Int64Val(kv.Value)
+								switch cc.Op {
+								case token.GEQ:
+									known = max(known, int(k))
+								case token.GTR:
+									known = max(known, int(k)+1)
+								case token.NEQ:
+									if k == 0 {
+										known = max(known, 1)
+									}
+								}
+							}
+						}
+					case *ast.CallExpr:
+						if fn := p.Callee(f.Pkg, cc); fn != nil && len(cc.Args) == 2 && types.ExprString(cc.Args[0]) == xs {
+							if lv, ok := info.Types[cc.Args[1]]; ok && lv.Value != nil && lv.Value.Kind() == constant.String {
+								switch fn.FullName() {
+								case "strings.HasPrefix":
+									pre, hasPre = constant.StringVal(lv.Value), true
+								case "strings.HasSuffix":
+									suf, hasSuf = constant.StringVal(lv.Value), true
+								}
+							}
+						}
+					}
+				}
+				switch {
+				case hasPre && hasSuf:
+					known = max(known, minOverlapLen(pre, suf))
+					why = fmt.Sprintf("HasPrefix(%q) && HasSuffix(%q) imply len ≥ %d", pre, suf, minOverlapLen(pre, suf))
+				case hasPre:
+					known = max(known, len(pre))
+				case hasSuf:
+					known = max(known, len(suf))
+				}
+			}
+			if known >= need {
+				r.Ok(rule, key, p.Pos(sl), fmt.Sprintf("guards imply len ≥ %d ≥ %d", known, need))
+				return true
+			}
+			// token produced by a lexer rule: Capture(s []string) of a type used in a field tagged `@<Rule>`
+			if f.Decl.Name.Name == "Capture" && f.Decl.Recv != nil {
+				recv := recvTypeName(f.Decl.Recv.List[0].Type)
+				tokens := captureTokens(p, recv)
+				if len(tokens) > 0 {
+					minTok := -1
+					unknown := ""
+					for _, tk := range tokens {
+						ml, ok := ruleMin[tk]
+						if !ok {
+							unknown = tk
+							continue
+						}
+						if minTok == -1 || ml < minTok {
+							minTok = ml
+						}
+					}
+					if unknown == "" && minTok >= need {
+						r.Ok(rule, key, p.Pos(sl), fmt.Sprintf("token of lexer rule(s) %v, minimal match length %d ≥ %d", tokens, minTok, need))
+						return true
+					}
+					why = fmt.Sprintf("%s; captured lexer rules %v have minimal length %d (unknown rule: %q)", why, tokens, minTok, unknown)
+				}
+			}
+			r.Bad(rule, key, p.Pos(sl), fmt.Sprintf("the slice needs len(%s) ≥ %d but the guards only establish len ≥ %d (%s): a shorter token makes the parser panic with slice bounds out of range", xs, need, known, why))
+			return true
+		})
+	}
+	r.Floor(rule, 3, n)
+}
+
+// regexMinLen: minimal length (in bytes, lower bound) of a string matched by re.
+func regexMinLen(re *syntax.Regexp) int {
+	switch re.Op {
+	case syntax.OpLiteral:
+		return len(string(re.Rune))
+	case syntax.OpCharClass, syntax.OpAnyCharNotNL, syntax.OpAnyChar:
+		return 1
+	case syntax.OpCapture:
+		return regexMinLen(re.Sub[0])
+	case syntax.OpConcat:
+		s := 0
+		for _, x := range re.Sub {
+			s += regexMinLen(x)
+		}
+		return s
+	case syntax.OpAlternate:
+		m := -1
+		for _, x := range re.Sub {
+			if l := regexMinLen(x); m == -1 || l < m {
+				m = l
+			}
+		}
+		if m < 0 {
+			m = 0
+		}
+		return m
+	case syntax.OpPlus:
+		return regexMinLen(re.Sub[0])
+	case syntax.OpRepeat:
+		return re.Min * regexMinLen(re.Sub[0])
+	}
+	return 0 // star, quest, empty, anchors
+}
+
+// captureTokens: the lexer token names captured into fields of the given participle node type
+// (struct tags `parser:"… @Name …"` on fields whose type is *T / T / []T).
+func captureTokens(p *Prog, typeName string) []string {
+	var out []string
+	seen := map[string]bool{}
+	pk := p.By["query"]
+	for _, file := range pk.Syntax {
+		ast.Inspect(file, func(x ast.Node) bool {
+			fld, ok := x.(*ast.Field)
+			if !ok || fld.Tag == nil {
+				return true
+			}
+			if !strings.Contains(types.ExprString(fld.Type), typeName) {
+				return true
+			}
+			tag := fld.Tag.Value
+			i := strings.Index(tag, `parser:"`)
+			if i < 0 {
+				return true
+			}
+			body := tag[i+len(`parser:"`):]
+			for j := 0; j < len(body); j++ {
+				if body[j] == '@' && j+1 < len(body) && body[j+1] != '@' {
+					k := j + 1
+					if body[k] == '(' {
+						k++
+					}
+					e := k
+					for e < len(body) && (body[e] == '_' || body[e] >= 'A' && body[e] <= 'Z' || body[e] >= 'a' && body[e] <= 'z' || body[e] >= '0' && body[e] <= '9') {
+						e++
+					}
+					if e > k && !seen[body[k:e]] {
+						seen[body[k:e]] = true
+						out = append(out, body[k:e])
+					}
+				}
+			}
+			return true
+		})
+	}
+	sort.Strings(out)
+	return out
 }
